@@ -1,12 +1,233 @@
 /-
-  Proofs/C01.lean — no look-ahead (theorems over the engine model; see below).
+  Proofs/C01.lean — backtest decisions never depend on future candles (no look-ahead).
+  Theorems over the engine model (Jesse/Engine.lean, tied to the real engine by whole-session trace
+  correspondence).  The user strategy `u` is an ARBITRARY record of functions of the engine state, so
+  "for every strategy" is a real universal quantifier; the engine state contains the complete trace
+  (`log`), the candle store, the accounts and the strategies' memories, so equality of states is
+  equality of everything observable.  PROPERTY THEOREMS ONLY (helpers in Proofs/Lemmas/Prefix.lean).
 -/
-import Jesse.Engine
+import Proofs.Lemmas.Prefix
 
 namespace C01
-open Jesse Jesse.Eng
+open Jesse Jesse.Eng PrefixLemmas
 
-/-- placeholder (the prefix theorems follow) -/
-theorem gcdList_nil : gcdList [] = 0 := rfl
+variable {M : Type} [Inhabited M] (u : UserStrategy M)
+
+theorem foldl_ext' {α β} (f g : β → α → β) (l : List α) (b : β) (h : ∀ x y, f x y = g x y) :
+    l.foldl f b = l.foldl g b := by
+  have : f = g := by funext x y; exact h x y
+  rw [this]
+
+/-- per symbol: iteration `i` only reads rows `i-1` and `i` and the window ending at `i` -/
+theorem symStep_prefix (fuel i n : Nat) (hi : i < n) (e : Engine M) (a b : List (List Candle)) (hab : Agree n a b)
+    (sym : Nat) :
+    (symStep u fuel i (e, a) sym).1 = (symStep u fuel i (e, b) sym).1 ∧
+    Agree n (symStep u fuel i (e, a) sym).2 (symStep u fuel i (e, b) sym).2 := by
+  unfold symStep
+  by_cases herr : e.err.isSome
+  · simp only [herr, if_true]; exact ⟨trivial, hab⟩
+  · simp only [herr, Bool.false_eq_true, if_false]
+    have hs := hab.2 sym
+    rw [fixedRow_agree hs hi]
+    cases hf : fixedRow (b.getD sym []) i with
+    | none => exact ⟨rfl, hab⟩
+    | some c =>
+      simp only []
+      have hset := set_take_agree (i := i) c hs
+      refine ⟨?_, agree_set n a b sym _ _ hab hset⟩
+      -- the generated windows: their bounds lie in [0, i+1]
+      have hwin : ∀ tf : Nat, (i + 1) % tf = 0 →
+          Py.slice ((a.getD sym []).set i c) (some ((i : Int) - ((tf : Int) - 1))) (some ((i : Int) + 1)) =
+          Py.slice ((b.getD sym []).set i c) (some ((i : Int) - ((tf : Int) - 1))) (some ((i : Int) + 1)) := by
+        intro tf htf
+        have htf0 : tf ≠ 0 := by
+          intro h0; subst h0; simp at htf
+        have hle : tf ≤ i + 1 := Nat.le_of_dvd (by omega) (Nat.dvd_of_mod_eq_zero htf)
+        have e1 : (i : Int) - ((tf : Int) - 1) = ((i + 1 - tf : Nat) : Int) := by omega
+        have e2 : (i : Int) + 1 = ((i + 1 : Nat) : Int) := by omega
+        rw [e1, e2]
+        exact slice_agree _ _ (by omega) hset
+      congr 1
+      funext eacc tf
+      by_cases htf : (i + 1) % tf = 0
+      · simp only [htf, if_true]; rw [hwin tf htf]
+      · simp only [htf, if_false]
+
+theorem fold_symStep_prefix (fuel i n : Nat) (hi : i < n) (syms : List Nat) (e : Engine M) (a b : List (List Candle))
+    (hab : Agree n a b) :
+    (syms.foldl (symStep u fuel i) (e, a)).1 = (syms.foldl (symStep u fuel i) (e, b)).1 ∧
+    Agree n (syms.foldl (symStep u fuel i) (e, a)).2 (syms.foldl (symStep u fuel i) (e, b)).2 := by
+  induction syms generalizing e a b with
+  | nil => exact ⟨rfl, hab⟩
+  | cons s rest ih =>
+    simp only [List.foldl_cons]
+    obtain ⟨h1, h2⟩ := symStep_prefix u fuel i n hi e a b hab s
+    have : symStep u fuel i (e, a) s = ((symStep u fuel i (e, b) s).1, (symStep u fuel i (e, a) s).2) := by
+      rw [← h1]
+    rw [this]
+    exact ih _ _ _ h2
+
+/-- ONE ITERATION of the normal simulator: if two inputs agree on their first `n` rows and `i < n`, iteration
+    `i` produces the same engine state — same hook calls, submissions, cancels, fills, candle store,
+    positions and balances — and the (in-place jump-fixed) inputs still agree on their first `n` rows. -/
+theorem stepAt_prefix (fuel i n : Nat) (hi : i < n) (e : Engine M) (a b : List (List Candle)) (hab : Agree n a b) :
+    (stepAt u fuel a e i).1 = (stepAt u fuel b e i).1 ∧ Agree n (stepAt u fuel a e i).2 (stepAt u fuel b e i).2 := by
+  unfold stepAt
+  by_cases herr : e.err.isSome
+  · simp only [herr, if_true]; exact ⟨trivial, hab⟩
+  · simp only [herr, Bool.false_eq_true, if_false]
+    have hts : ((a.getD 0 [])[i]?) = ((b.getD 0 [])[i]?) := getElem?_of_take_eq (hab.2 0) hi
+    rw [hts]
+    obtain ⟨h1, h2⟩ := fold_symStep_prefix u fuel i n hi (List.range e.cfg.nsym)
+      { e with time := ((((b.getD 0 [])[i]?).map (·.ts)).getD 0) + 60000 } a b hab
+    exact ⟨by rw [h1], h2⟩
+
+/-- NO LOOK-AHEAD, normal simulator: for every strategy, configuration and route set, if two candle inputs
+    agree on the rows before the cut `n` (for every symbol), then after the first `n` iterations the two
+    runs are in the same state: identical traces up to simulated time t, whatever follows the cut
+    (other candles, a different number of candles). -/
+theorem step_prefix (fuel n : Nat) (hn : 0 < n) (e : Engine M) (a b : List (List Candle)) (hab : Agree n a b) :
+    (runStepN u fuel a e n).1 = (runStepN u fuel b e n).1 := by
+  unfold runStepN
+  have h0 : ((a.getD 0 [])[0]?) = ((b.getD 0 [])[0]?) := getElem?_of_take_eq (hab.2 0) hn
+  rw [h0]
+  -- iterate: the invariant is "same engine, inputs agree on the first n rows"
+  have key : ∀ (k : Nat), k ≤ n → ∀ (e0 : Engine M) (x y : List (List Candle)), Agree n x y →
+      ((List.range k).foldl (fun (acc : Engine M × List (List Candle)) i => stepAt u fuel acc.2 acc.1 i) (e0, x)).1 =
+      ((List.range k).foldl (fun (acc : Engine M × List (List Candle)) i => stepAt u fuel acc.2 acc.1 i) (e0, y)).1 ∧
+      Agree n ((List.range k).foldl (fun (acc : Engine M × List (List Candle)) i => stepAt u fuel acc.2 acc.1 i) (e0, x)).2
+              ((List.range k).foldl (fun (acc : Engine M × List (List Candle)) i => stepAt u fuel acc.2 acc.1 i) (e0, y)).2 := by
+    intro k
+    induction k with
+    | zero => intro _ e0 x y hxy; exact ⟨rfl, hxy⟩
+    | succ k ih =>
+      intro hk e0 x y hxy
+      obtain ⟨h1, h2⟩ := ih (by omega) e0 x y hxy
+      rw [List.range_succ, List.foldl_append, List.foldl_append]
+      simp only [List.foldl_cons, List.foldl_nil]
+      obtain ⟨g1, g2⟩ := stepAt_prefix u fuel k n (by omega)
+        ((List.range k).foldl (fun (acc : Engine M × List (List Candle)) i => stepAt u fuel acc.2 acc.1 i) (e0, y)).1 _ _ h2
+      rw [h1]
+      exact ⟨g1, g2⟩
+  exact (key n (Nat.le_refl n) _ a b hab).1
+
+/-- the trace (log of every hook call, submission, cancellation, fill, equity sample) is part of the
+    state, so in particular the two runs produced the same events so far -/
+theorem step_prefix_trace (fuel n : Nat) (hn : 0 < n) (e : Engine M) (a b : List (List Candle)) (hab : Agree n a b) :
+    (runStepN u fuel a e n).1.log = (runStepN u fuel b e n).1.log := by
+  rw [step_prefix u fuel n hn e a b hab]
+
+/-! ### the fast simulator -/
+
+/-- per symbol: the chunk `[i, i+step)` only reads rows `i-1 … i+step-1` and windows ending at `i+step` -/
+theorem symSkip_prefix (fuel i step n : Nat) (hi : i + step ≤ n) (hstep : 0 < step) (e : Engine M)
+    (a b : List (List Candle)) (hab : Agree n a b) (sym : Nat) :
+    (symSkip u fuel i step (e, a) sym).1 = (symSkip u fuel i step (e, b) sym).1 ∧
+    Agree n (symSkip u fuel i step (e, a) sym).2 (symSkip u fuel i step (e, b) sym).2 := by
+  unfold symSkip
+  by_cases herr : e.err.isSome
+  · simp only [herr, if_true]; exact ⟨trivial, hab⟩
+  · simp only [herr, Bool.false_eq_true, if_false]
+    have hs := hab.2 sym
+    have hi' : i < n := by omega
+    -- the jump-fixed arrays agree on the first n rows
+    have hcs : (fixedFirst (a.getD sym []) i).take n = (fixedFirst (b.getD sym []) i).take n := by
+      unfold fixedFirst
+      by_cases h0 : i ≠ 0
+      · rw [if_pos h0, if_pos h0, fixedRow_agree hs hi']
+        cases fixedRow (b.getD sym []) i with
+        | none => exact hs
+        | some c => exact set_take_agree c hs
+      · rw [if_neg h0, if_neg h0]; exact hs
+    refine ⟨?_, agree_set n a b sym _ _ hab hcs⟩
+    have e1 : (i : Int) + (step : Int) = ((i + step : Nat) : Int) := by omega
+    have hchunk := slice_agree i (i + step) hi hcs
+    rw [e1, hchunk]
+    congr 1
+    funext eacc tf
+    by_cases htf : (i + step) % tf = 0
+    · simp only [htf, if_true]
+      have htf0 : tf ≠ 0 := by
+        intro h0; subst h0; simp at htf; omega
+      have hle : tf ≤ i + step := Nat.le_of_dvd (by omega) (Nat.dvd_of_mod_eq_zero htf)
+      have e2 : (i : Int) - (tf : Int) + (step : Int) = ((i + step - tf : Nat) : Int) := by omega
+      rw [e2, slice_agree (i + step - tf) (i + step) hi hcs]
+    · simp only [htf, if_false]
+
+theorem fold_symSkip_prefix (fuel i step n : Nat) (hi : i + step ≤ n) (hstep : 0 < step) (syms : List Nat)
+    (e : Engine M) (a b : List (List Candle)) (hab : Agree n a b) :
+    (syms.foldl (symSkip u fuel i step) (e, a)).1 = (syms.foldl (symSkip u fuel i step) (e, b)).1 ∧
+    Agree n (syms.foldl (symSkip u fuel i step) (e, a)).2 (syms.foldl (symSkip u fuel i step) (e, b)).2 := by
+  induction syms generalizing e a b with
+  | nil => exact ⟨rfl, hab⟩
+  | cons s rest ih =>
+    simp only [List.foldl_cons]
+    obtain ⟨h1, h2⟩ := symSkip_prefix u fuel i step n hi hstep e a b hab s
+    have : symSkip u fuel i step (e, a) s = ((symSkip u fuel i step (e, b) s).1, (symSkip u fuel i step (e, a) s).2) := by
+      rw [← h1]
+    rw [this]
+    exact ih _ _ _ h2
+
+theorem skipAt_prefix (fuel i step n : Nat) (hi : i + step ≤ n) (hstep : 0 < step) (e : Engine M)
+    (a b : List (List Candle)) (hab : Agree n a b) :
+    (skipAt u fuel a e i step).1 = (skipAt u fuel b e i step).1 ∧
+    Agree n (skipAt u fuel a e i step).2 (skipAt u fuel b e i step).2 := by
+  unfold skipAt
+  by_cases herr : e.err.isSome
+  · simp only [herr, if_true]; exact ⟨trivial, hab⟩
+  · simp only [herr, Bool.false_eq_true, if_false]
+    obtain ⟨h1, h2⟩ := fold_symSkip_prefix u fuel i step n hi hstep (List.range e.cfg.nsym) e a b hab
+    exact ⟨by rw [h1], h2⟩
+
+/-- NO LOOK-AHEAD, fast simulator: if two inputs agree on the rows before the cut `n`, the cut lies on a
+    chunk boundary (`n = k·step`; the chunk is the gcd of the route timeframes, so every trading-candle
+    boundary is one) and both inputs have at least `n` rows, then after the first `k` chunks the two runs
+    are in the same state (identical traces up to simulated time t). -/
+theorem fast_prefix (fuel step k : Nat) (hstep : 0 < step) (hk : 0 < k) (e : Engine M) (a b : List (List Candle))
+    (hab : Agree (k * step) a b)
+    (hla : k * step ≤ (a.getD 0 []).length) (hlb : k * step ≤ (b.getD 0 []).length) :
+    (runSkipN u fuel a e step k).1 = (runSkipN u fuel b e step k).1 := by
+  unfold runSkipN
+  have hn : 0 < k * step := Nat.mul_pos hk hstep
+  have h0 : ((a.getD 0 [])[0]?) = ((b.getD 0 [])[0]?) := getElem?_of_take_eq (hab.2 0) hn
+  rw [h0]
+  have key : ∀ (m : Nat), m ≤ k → ∀ (e0 : Engine M) (x y : List (List Candle)), Agree (k * step) x y →
+      ((List.range m).foldl (fun (acc : Engine M × List (List Candle)) j =>
+          skipAt u fuel acc.2 acc.1 (j * step) (min step ((a.getD 0 []).length - j * step))) (e0, x)).1 =
+      ((List.range m).foldl (fun (acc : Engine M × List (List Candle)) j =>
+          skipAt u fuel acc.2 acc.1 (j * step) (min step ((b.getD 0 []).length - j * step))) (e0, y)).1 ∧
+      Agree (k * step)
+        ((List.range m).foldl (fun (acc : Engine M × List (List Candle)) j =>
+          skipAt u fuel acc.2 acc.1 (j * step) (min step ((a.getD 0 []).length - j * step))) (e0, x)).2
+        ((List.range m).foldl (fun (acc : Engine M × List (List Candle)) j =>
+          skipAt u fuel acc.2 acc.1 (j * step) (min step ((b.getD 0 []).length - j * step))) (e0, y)).2 := by
+    intro m
+    induction m with
+    | zero => intro _ e0 x y hxy; exact ⟨rfl, hxy⟩
+    | succ m ih =>
+      intro hm e0 x y hxy
+      obtain ⟨h1, h2⟩ := ih (by omega) e0 x y hxy
+      rw [List.range_succ, List.foldl_append, List.foldl_append]
+      simp only [List.foldl_cons, List.foldl_nil]
+      -- a complete chunk before the cut: both lengths allow the full step
+      have hfull : (m + 1) * step ≤ k * step := Nat.mul_le_mul_right step hm
+      have hms : m * step + step = (m + 1) * step := by rw [Nat.add_mul]; simp
+      have ea : min step ((a.getD 0 []).length - m * step) = step := by omega
+      have eb : min step ((b.getD 0 []).length - m * step) = step := by omega
+      rw [ea, eb]
+      obtain ⟨g1, g2⟩ := skipAt_prefix u fuel (m * step) step (k * step) (by omega) hstep
+        ((List.range m).foldl (fun (acc : Engine M × List (List Candle)) j =>
+          skipAt u fuel acc.2 acc.1 (j * step) (min step ((b.getD 0 []).length - j * step))) (e0, y)).1 _ _ h2
+      rw [h1]
+      exact ⟨g1, g2⟩
+  exact (key k (Nat.le_refl k) _ a b hab).1
+
+/-- non-vacuity of the hypotheses: two different inputs that agree on their first two rows -/
+example : Agree 2 [[⟨0, 1, 1, 1, 1, 1⟩, ⟨60000, 1, 2, 2, 1, 1⟩, ⟨120000, 2, 3, 3, 2, 1⟩]]
+                  [[⟨0, 1, 1, 1, 1, 1⟩, ⟨60000, 1, 2, 2, 1, 1⟩, ⟨120000, 9, 9, 9, 9, 9⟩, ⟨180000, 9, 9, 9, 9, 9⟩]] := by
+  refine ⟨rfl, fun s => ?_⟩
+  cases s with
+  | zero => rfl
+  | succ k => simp [List.getD]
 
 end C01
